@@ -135,6 +135,12 @@ func main() {
 		r := lib.Eval(env, "("+opsym+" a b)", 100000)
 		input := kind + " " + opname + " " + x.key() + " " + y.key()
 		out.Case(input, render(r), x.key() != y.key(), kind+":"+opname, "types:"+string(x.kind)+string(y.kind))
+		if x.key() == y.key() {
+			// the very same object on both sides (one variable mentioned twice): an identity
+			// shortcut must not bypass the NaN rules or the arithmetic
+			r2 := lib.Eval(env, "("+opsym+" a a)", 100000)
+			out.Case(input, render(r2), false, kind+":"+opname, "same-object")
+		}
 	}
 	g := grid()
 	if a.Replay == "" {
